@@ -43,7 +43,13 @@ def preload():
 
 def cases(tier, seed):
     n = 20000 if tier == "quick" else 400000
-    return [{"seed": seed * 1000003 + i, "steps": 3 + (i % 28)} for i in range(n)]
+    out = [{"seed": seed * 1000003 + i, "steps": 3 + (i % 28)} for i in range(n)]
+    # real worker processes of the real LocalBackend, paused and resumed (the capture files are opened by the backend itself);
+    # spread over the case list so that they run on different cores
+    m = 12 if tier == "quick" else 96
+    for j in range(m):
+        out.insert((j * n) // m, {"seed": seed * 1000003 + 700000 + j, "engine": "procs"})
+    return out
 
 
 def floors(tier):
@@ -66,6 +72,8 @@ def floors(tier):
         "rejected:reserved_key": f // 2,
         "rejected:unserialisable": f // 2,
         "rejected:oversized": f // 10,
+        "procs:jobs_resumed_with_earlier_reports": 6 if tier == "quick" else 50,
+        "procs:reports_delivered": 35 if tier == "quick" else 300,
     }
 
 
@@ -218,7 +226,132 @@ def _backend():
     return be
 
 
+PROC_SCRIPT = """
+import json, sys, time
+from argparse import ArgumentParser
+from syne_tune import Reporter
+p = ArgumentParser()
+p.add_argument("--plan", type=str)
+p.add_argument("--leg", type=int)
+a, _ = p.parse_known_args()
+leg = json.load(open(a.plan))["legs"][a.leg]
+report = Reporter()
+for kind, item in leg["items"]:
+    if kind == "noise":
+        sys.stdout.write(item)
+    else:
+        report(**item)
+sys.stdout.flush()
+if leg["wait"]:
+    time.sleep(600)
+"""
+
+
+def run_procs_case(spec):
+    """Real LocalBackend, real worker processes: a trial reports, is paused (or stopped at the end), resumed with a new job
+    that reports again, ...; everything fetch_status_results delivers for the trial, and what retrieve(stdout(trial))
+    parses at the end, must be the reports of all legs, unchanged, once, in order."""
+    import json
+    import time
+
+    from syne_tune.backend import LocalBackend
+    from syne_tune.backend.trial_status import Status
+    from syne_tune.report import retrieve
+
+    o = Obs()
+    rng = random.Random(spec["seed"])
+    root = os.path.join(envshim.scratch_dir(), f"procs-{os.getpid()}-{spec['seed']}")
+    os.makedirs(root, exist_ok=True)
+    script = os.path.join(root, "train_script.py")
+    with open(script, "w") as fh:
+        fh.write(PROC_SCRIPT)
+    n_legs = rng.randint(2, 3)
+    legs, expected, step = [], [], 0
+    for leg in range(n_legs):
+        items = []
+        for _ in range(rng.randint(0 if leg else 1, 5)):
+            if rng.random() < 0.25:
+                items.append(["noise", rng.choice(["some other output\n", "x", "epoch done {1}\n", "\n"])])
+            rep = {"step": step, "value": rng.choice([step * 0.5, -1e-7 * step, float(step), str(step)]), "leg": f"leg-{leg}"}
+            if rng.random() < 0.3:
+                rep["extra"] = [1, {"a": None}, "z"]
+            items.append(["report", rep])
+            expected.append(rep)
+            step += 1
+        legs.append({"items": items, "wait": leg < n_legs - 1})
+    plan = os.path.join(root, "plan.json")
+    json.dump({"legs": legs}, open(plan, "w"))
+    old_pp = os.environ.get("PYTHONPATH")
+    os.environ["PYTHONPATH"] = envshim.REPO + (os.pathsep + old_pp if old_pp else "")
+    be = LocalBackend(entry_point=script)
+    be.set_path(results_root=root, tuner_name="procs")
+    received = []
+    deadline = time.time() + 45
+
+    def strip(m):
+        return {k: v for k, v in m.items() if not k.startswith("st_")}
+
+    def poll(tid):
+        _, results = be.fetch_status_results([tid])
+        received.extend(strip(m) for t, m in results if t == tid)
+
+    try:
+        n_exp = 0
+        tid = None
+        for leg in range(n_legs):
+            cfg = {"plan": plan, "leg": leg}
+            if leg == 0:
+                tid = be.start_trial(config=cfg).trial_id
+            else:
+                if n_exp > 0:
+                    o.count("procs:jobs_resumed_with_earlier_reports")
+                be.resume_trial(tid, new_config=cfg)
+            n_exp += sum(1 for k, _ in legs[leg]["items"] if k == "report")
+            last = leg == n_legs - 1
+            while time.time() < deadline:
+                poll(tid)
+                if last and be._trial_dict[tid].status == Status.completed:
+                    break
+                if not last and len(received) >= n_exp:
+                    break
+                time.sleep(0.05)
+            else:
+                o.inconclusive("procs:worker_process_too_slow")
+                return o.result()
+            if not last:
+                be.pause_trial(tid)
+                poll(tid)
+        poll(tid)
+        parsed = [strip(m) for m in retrieve(be.stdout(tid))]
+    except Exception as e:  # noqa: BLE001
+        o.violate("no_raise", f"procs:raised:{type(e).__name__}", {"error": repr(e)[:300]})
+        return o.result()
+    finally:
+        try:
+            be.stop_all()
+        except Exception:  # noqa: BLE001
+            pass
+        if old_pp is None:
+            os.environ.pop("PYTHONPATH", None)
+        else:
+            os.environ["PYTHONPATH"] = old_pp
+    o.count("procs:cases")
+    o.count("procs:reports_delivered", len(received))
+    det = {"legs": [[it for k, it in lg["items"] if k == "report"] for lg in legs]}
+    if received != expected:
+        how = "lost" if len(received) < len(expected) else "duplicated_or_extra" if len(received) > len(expected) else "altered"
+        o.violate("delivered_unchanged", f"procs:reports_of_paused_and_resumed_trial:{how}",
+                  dict(det, received=received[:12], expected=expected[:12]))
+    elif parsed != expected:
+        o.violate("delivered_unchanged", "procs:captured_output_of_all_jobs_does_not_parse_to_the_reports",
+                  dict(det, parsed=parsed[:12], expected=expected[:12]))
+    o.set_sig(("procs", n_legs, tuple(len(d) for d in det["legs"])), nontrivial=len(expected) > 0)
+    return o.result()
+
+
 def run_case(spec):
+    if spec.get("engine") == "procs":
+        return run_procs_case(spec)
     from syne_tune.report import Reporter, retrieve
     from syne_tune.constants import ST_WORKER_ITER, ST_WORKER_TIMESTAMP, ST_WORKER_TIME
 
